@@ -7,5 +7,5 @@ export GOTOOLCHAIN=local
 setup:
 	mkdir -p bin evidence out
 	cp /repo/go.sum harness/go.sum
-	cd harness && go build -tags verif -o ../bin/vh ./cmd/vh && go build -race -tags verif -o ../bin/vh-race ./cmd/vh && go build -tags verif -o ../bin/c20 ./cmd/c20
+	cd harness && go build -tags verif -o ../bin/vh ./cmd/vh && go build -race -tags verif -o ../bin/vh-race ./cmd/vh && go build -tags verif -o ../bin/c20 ./cmd/c20 && go build -tags "verif osusergo" -o ../bin/c19 ./cmd/c19
 	@echo setup done
